@@ -38,7 +38,9 @@
 
     Part 2 instantiates the signature with the numerical model of Unilateral.v.
 
-    Executable definitions and statements only; proofs are in MachineProofs.v. *)
+    Executable definitions and statements only (plus the specifications of the
+    instance's boolean equality tests, which the signature record carries); proofs are
+    in MachineProofs.v. *)
 From LymphModel Require Import Base States Linalg Graph Transition Observation Dist Unilateral.
 Local Open Scope nat_scope.
 
@@ -62,10 +64,15 @@ Record sig : Type := {
   sg_gval : Type;     (* diagnosis matrix *)
   sg_qname : Type;    (* any other query with its arguments *)
   sg_qval : Type;
-  sg_tstage_dec : forall a b : sg_tstage, {a = b} + {a <> b};
-  sg_mname_dec : forall a b : sg_mname, {a = b} + {a <> b};
-  sg_cmval_dec : forall a b : sg_cmval, {a = b} + {a <> b};
-  sg_tkey_dec : forall a b : sg_tkey, {a = b} + {a <> b};
+  (* equality tests used by the dict / cache look-ups (boolean, so that the cached machine computes) *)
+  sg_tstage_eqb : sg_tstage -> sg_tstage -> bool;
+  sg_tstage_eqb_spec : forall a b, sg_tstage_eqb a b = true <-> a = b;
+  sg_mname_eqb : sg_mname -> sg_mname -> bool;
+  sg_mname_eqb_spec : forall a b, sg_mname_eqb a b = true <-> a = b;
+  sg_cmval_eqb : sg_cmval -> sg_cmval -> bool;
+  sg_cmval_eqb_spec : forall a b, sg_cmval_eqb a b = true <-> a = b;
+  sg_tkey_eqb : sg_tkey -> sg_tkey -> bool;
+  sg_tkey_eqb_spec : forall a b, sg_tkey_eqb a b = true <-> a = b;
   sg_cm : sg_static -> sg_mval -> sg_cmval;                  (* Modality.compute_confusion_matrix *)
   sg_apply_mupd : sg_mupd -> sg_mval -> option sg_mval;      (* None = the setter raises, nothing changes *)
   sg_params0 : sg_static -> sg_params;                       (* parameters of a new model *)
@@ -91,7 +98,7 @@ Record sig : Type := {
 
 (** * Association lists with dict semantics, caches *)
 Section Assoc.
-  Context {K V : Type} (dec : forall a b : K, {a = b} + {a <> b}).
+  Context {K V : Type} (dec : K -> K -> bool).
   Fixpoint lookup (k : K) (c : list (K * V)) : option V :=
     match c with [] => None | (k', v) :: r => if dec k k' then Some v else lookup k r end.
   (** d[k] = v : replace in place, or append *)
@@ -139,8 +146,8 @@ Section Machine.
   Local Notation dmval := (sg_dmval M).     Local Notation omval := (sg_omval M).
   Local Notation gval := (sg_gval M).       Local Notation qname := (sg_qname M).
   Local Notation qval := (sg_qval M).
-  Local Notation tstage_dec := (sg_tstage_dec M).   Local Notation mname_dec := (sg_mname_dec M).
-  Local Notation cmval_dec := (sg_cmval_dec M).     Local Notation tkey_dec := (sg_tkey_dec M).
+  Local Notation tstage_dec := (sg_tstage_eqb M).   Local Notation mname_dec := (sg_mname_eqb M).
+  Local Notation cmval_dec := (sg_cmval_eqb M).     Local Notation tkey_dec := (sg_tkey_eqb M).
 
   (** ** Configuration = what a freshly constructed model is built from *)
   Record cfg := { c_static : static; c_mods : list (mname * mval); c_data : option table;
@@ -149,16 +156,16 @@ Section Machine.
   (** content hashed by modalities_hash: names and confusion matrices, insertion order *)
   Definition mkey := list (mname * cmval).
   Definition key := (option tstage * mkey * nat)%type.
-  Definition mkey_dec : forall a b : mkey, {a = b} + {a <> b}.
-  Proof. intros a b. apply list_eq_dec. intros [n1 c1] [n2 c2].
-    destruct (mname_dec n1 n2) as [->|H]; [|right; congruence].
-    destruct (cmval_dec c1 c2) as [->|H]; [left; reflexivity | right; congruence]. Defined.
-  Definition key_dec : forall a b : key, {a = b} + {a <> b}.
-  Proof. intros [[t1 m1] v1] [[t2 m2] v2].
-    destruct (Nat.eq_dec v1 v2) as [->|H]; [|right; congruence].
-    destruct (mkey_dec m1 m2) as [->|H]; [|right; congruence].
-    destruct t1 as [t1|], t2 as [t2|]; try (right; congruence); [|left; reflexivity].
-    destruct (tstage_dec t1 t2) as [->|H]; [left; reflexivity | right; congruence]. Defined.
+  Fixpoint mkey_dec (a b : mkey) : bool :=
+    match a, b with
+    | [], [] => true
+    | (n1, c1) :: a', (n2, c2) :: b' => mname_dec n1 n2 && cmval_dec c1 c2 && mkey_dec a' b'
+    | _, _ => false
+    end.
+  Definition key_dec (a b : key) : bool :=
+    let '(t1, m1, v1) := a in let '(t2, m2, v2) := b in
+    Nat.eqb v1 v2 && mkey_dec m1 m2 &&
+    match t1, t2 with Some x, Some y => tstage_dec x y | None, None => true | _, _ => false end.
   Definition mk_key (mode : kmode) (t : option tstage) (mc : mkey) (v : nat) : key :=
     match mode with KFull => (t, mc, v) | KNoVersion => (t, mc, 0) | KNoMods => (t, [], v) end.
 
@@ -263,7 +270,7 @@ Section Machine.
     match o with EvictM _ | At _ (EvictD _ | EvictG _ | EvictCM _ | EvictFrozen _) => true | _ => false end.
 
   (** replace_all_*: clear, then set one by one *)
-  Definition replace_assoc {K V} (dec : forall a b : K, {a = b} + {a <> b}) (l : list (K * V)) : list (K * V) :=
+  Definition replace_assoc {K V} (dec : K -> K -> bool) (l : list (K * V)) : list (K * V) :=
     fold_left (fun acc e => aset dec (fst e) (snd e) acc) l [].
 
   (** ** Spec machine: cache free, every query recomputes from the configuration *)
@@ -563,7 +570,8 @@ Definition toy_sig : sig := {|
   sg_table := list nat; sg_params := nat; sg_pupd := nat; sg_dval := nat; sg_dupd := nat; sg_pmfval := nat;
   sg_tkey := nat; sg_tval := nat; sg_dmval := list nat; sg_omval := nat; sg_gval := list nat;
   sg_qname := option nat; sg_qval := list nat;
-  sg_tstage_dec := Nat.eq_dec; sg_mname_dec := Nat.eq_dec; sg_cmval_dec := Nat.eq_dec; sg_tkey_dec := Nat.eq_dec;
+  sg_tstage_eqb := Nat.eqb; sg_tstage_eqb_spec := Nat.eqb_eq; sg_mname_eqb := Nat.eqb; sg_mname_eqb_spec := Nat.eqb_eq;
+  sg_cmval_eqb := Nat.eqb; sg_cmval_eqb_spec := Nat.eqb_eq; sg_tkey_eqb := Nat.eqb; sg_tkey_eqb_spec := Nat.eqb_eq;
   sg_cm := fun _ v => v;
   sg_apply_mupd := fun u _ => Some u;
   sg_params0 := fun _ => 0; sg_maxt0 := fun _ => 1;
@@ -628,10 +636,32 @@ Definition edge_tensor_key (b : nat) (e : edge) : tensor_key :=
   (if is_tumor_spread e then 1%nat else b, b, is_tumor_spread e, is_growth e, e_spread e, edge_micro b e).
 Definition tensor_of_key (k : tensor_key) : tensor :=
   let '(np, nc, it, ig, sp, mi) := k in comp_transition_tensor np nc it ig sp mi.
-Definition tensor_key_dec : forall a b : tensor_key, {a = b} + {a <> b}.
-Proof. repeat decide equality; apply Qc_eq_dec. Defined.
-Definition mat_dec : forall a b : mat, {a = b} + {a <> b}.
-Proof. apply list_eq_dec, list_eq_dec, Qc_eq_dec. Defined.
+Lemma Qc_eqb_spec (a b : Qc) : Qc_eqb a b = true <-> a = b.
+Proof. unfold Qc_eqb. destruct (Qc_eq_dec a b); split; intros H; auto; try discriminate; contradiction. Qed.
+Fixpoint list_eqb {A} (eqb : A -> A -> bool) (a b : list A) : bool :=
+  match a, b with [], [] => true | x :: a', y :: b' => eqb x y && list_eqb eqb a' b' | _, _ => false end.
+Lemma list_eqb_spec {A} (eqb : A -> A -> bool) : (forall x y, eqb x y = true <-> x = y) ->
+  forall a b, list_eqb eqb a b = true <-> a = b.
+Proof.
+  intros H a. induction a as [|x a IH]; intros [|y b]; cbn [list_eqb]; split; intros E; try reflexivity; try discriminate.
+  - apply andb_prop in E. destruct E as [E1 E2]. apply H in E1. apply IH in E2. congruence.
+  - inversion E; subst. apply andb_true_intro. split; [apply H; reflexivity | apply IH; reflexivity].
+Qed.
+Definition mat_eqb : mat -> mat -> bool := list_eqb (list_eqb Qc_eqb).
+Lemma mat_eqb_spec a b : mat_eqb a b = true <-> a = b.
+Proof. apply list_eqb_spec, list_eqb_spec, Qc_eqb_spec. Qed.
+Definition tensor_key_eqb (a b : tensor_key) : bool :=
+  let '(p1, c1, t1, g1, s1, m1) := a in let '(p2, c2, t2, g2, s2, m2) := b in
+  Nat.eqb p1 p2 && Nat.eqb c1 c2 && Bool.eqb t1 t2 && Bool.eqb g1 g2 && Qc_eqb s1 s2 && Qc_eqb m1 m2.
+Lemma tensor_key_eqb_spec a b : tensor_key_eqb a b = true <-> a = b.
+Proof.
+  destruct a as [[[[[p1 c1] t1] g1] s1] m1], b as [[[[[p2 c2] t2] g2] s2] m2]. cbn [tensor_key_eqb]. split.
+  - intros E. repeat (apply andb_prop in E; destruct E as [E ?]).
+    apply Nat.eqb_eq in E. apply Nat.eqb_eq in H3. apply Bool.eqb_prop in H2. apply Bool.eqb_prop in H1.
+    apply Qc_eqb_spec in H0. apply Qc_eqb_spec in H. congruence.
+  - intros E; inversion E; subst. rewrite !Nat.eqb_refl, !Bool.eqb_reflx.
+    rewrite (proj2 (Qc_eqb_spec s2 s2) eq_refl), (proj2 (Qc_eqb_spec m2 m2) eq_refl). reflexivity.
+Qed.
 
 (** generate_observation reads the modalities only through their confusion matrices *)
 Definition generate_observation_cm (cms : list mat) (n b : nat) : mat :=
@@ -679,7 +709,8 @@ Definition uni_sig : sig := {|
   sg_dval := dist; sg_dupd := list (string * string * Qc); sg_pmfval := option vec;
   sg_tkey := tensor_key; sg_tval := tensor; sg_dmval := res (list bvec); sg_omval := mat; sg_gval := res mat;
   sg_qname := uquery; sg_qval := uanswer;
-  sg_tstage_dec := string_dec; sg_mname_dec := string_dec; sg_cmval_dec := mat_dec; sg_tkey_dec := tensor_key_dec;
+  sg_tstage_eqb := String.eqb; sg_tstage_eqb_spec := String.eqb_eq; sg_mname_eqb := String.eqb; sg_mname_eqb_spec := String.eqb_eq;
+  sg_cmval_eqb := mat_eqb; sg_cmval_eqb_spec := mat_eqb_spec; sg_tkey_eqb := tensor_key_eqb; sg_tkey_eqb_spec := tensor_key_eqb_spec;
   sg_cm := fun s m => confusion_matrix (g_base (fst s)) m;
   sg_apply_mupd := uni_apply_mupd;
   sg_params0 := fst; sg_maxt0 := snd;
@@ -762,6 +793,27 @@ Definition U_EvictCM (i : nat) (n : string) : uop := At uni_sig i (EvictCM uni_s
 Definition U_EvictFrozen (i : nat) (t : string) : uop := At uni_sig i (EvictFrozen uni_sig t).
 Definition U_EvictM (k : nat) : uop := EvictM uni_sig k.
 
+(** output of every step together with the observable configuration of the instance the
+    step addressed: edge parameters, modalities, distributions (stage, keywords of a
+    parametric one), max_time *)
+Definition cfg_view (c : cfg uni_sig) :=
+  (map (fun e => (e_name e, (qout (e_spread e), qout (e_micro e)))) (g_edges (c_params uni_sig c)),
+   map (fun e => (fst e, (qout (m_spec (snd e)), qout (m_sens (snd e)), m_path (snd e)))) (c_mods uni_sig c),
+   map (fun e => (fst e, match snd e with
+                         | Frozen _ => None
+                         | Param _ kw => Some (map (fun kv => (fst kv, qout (snd kv))) kw)
+                         end)) (c_dists uni_sig c),
+   c_maxt uni_sig c).
+Fixpoint uni_trace_from (cs : list (cfg uni_sig)) (ops : list uop) :=
+  match ops with
+  | [] => []
+  | o :: r =>
+      let '(out, cs1) := sstep uni_sig cs o in
+      let target := match o with At _ i _ => i | New _ _ => length cs | EvictM _ _ => 0%nat end in
+      (show_output out, option_map cfg_view (nth_error cs1 target)) :: uni_trace_from cs1 r
+  end.
+Definition uni_trace (ops : list uop) := uni_trace_from [] ops.
+
 (** the instance's observation function is the one of Observation.v *)
 Definition C09_observe_faithful_stmt : Prop :=
   forall mods n b, generate_observation mods n b = generate_observation_cm (map (confusion_matrix b) mods) n b.
@@ -774,3 +826,40 @@ Definition C09_uni_matrices_faithful_stmt : Prop :=
     g_base (c_params uni_sig c) = g_base (fst (c_static uni_sig c)) ->
     data_matrix u tb None = inr full ->
     dm_spec uni_sig c t = Some (data_matrix u tb t) /\ gm_spec uni_sig c t = Some (diagnosis_matrix u tb t).
+
+(** * A concrete history for the non-vacuity examples: two live models sharing the
+    module cache, the changelog's stale-cache pattern (load, edit a modality in place,
+    reload a smaller cohort, query one T-stage), evictions in between *)
+Definition C09_ex_graph : graph :=
+  force_graph (build_graph 2 [(("tumor", "T"), CList ["II"; "III"]); (("lnl", "II"), CList ["III"]); (("lnl", "III"), CList [])]).
+Definition C09_ex_patient (t : string) (a b : option indicator) : patient :=
+  {| p_tstage := t; p_find := [("CT", [("II", a); ("III", b)])] |}.
+Definition C09_ex_history : list uop :=
+  [U_New C09_ex_graph 3;
+   U_New C09_ex_graph 3;
+   U_SetParams 0 [("TtoII", (qc 1 4, qc 1 1)); ("TtoIII", (qc 1 8, qc 1 1)); ("IItoIII", (qc 1 2, qc 1 1))] [];
+   U_SetParams 1 [("TtoII", (qc 1 4, qc 1 1)); ("TtoIII", (qc 1 2, qc 1 1)); ("IItoIII", (qc 0 1, qc 1 1))] [];
+   U_SetMod 0 "CT" {| m_spec := qc 3 4; m_sens := qc 7 8; m_path := false |};
+   U_SetMod 1 "CT" {| m_spec := qc 1 1; m_sens := qc 1 2; m_path := true |};
+   U_SetDist 0 "early" (Frozen (normalize [qc 1 1; qc 2 1; qc 1 1; qc 0 1]));
+   U_SetDist 0 "late" (Param 0 [("p", qc 1 2)]);
+   U_SetDist 1 "late" (Param 0 [("p", qc 1 2)]);
+   U_Load 0 [C09_ex_patient "early" (Some IInvolved) None; C09_ex_patient "late" (Some IHealthy) (Some IInvolved);
+             C09_ex_patient "early" None None];
+   U_Load 1 [C09_ex_patient "late" (Some IInvolved) (Some IInvolved)];
+   U_DataMatrix 0 (Some "early");                       (* 11 *)
+   U_DiagMatrix 0 None;                                 (* 12 *)
+   U_Query 1 (QLik None);                               (* 13 *)
+   U_Query 0 (QLik None);                               (* 14 *)
+   U_UpdMod 0 "CT" true (qc 1 2);
+   U_EvictG 0 0;
+   U_Load 0 [C09_ex_patient "late" (Some IInvolved) None];
+   U_EvictM 1;
+   U_DiagMatrix 0 (Some "late");                        (* 19 *)
+   U_Query 0 (QLik (Some "late"));                      (* 20 *)
+   U_Query 1 (QLik None);                               (* 21 = 13 *)
+   U_SetParams 0 [] [("late", "p", qc 1 4)];
+   U_EvictFrozen 0 "late";
+   U_Query 0 (QStateDist "late");                       (* 24 *)
+   U_Query 0 (QRisk [("II", Some IInvolved)] (Some [("CT", [("III", Some IInvolved)])]) "late");   (* 25 *)
+   U_PatientData 0].
